@@ -14,7 +14,7 @@ func init() {
 		ID: "C15",
 		Explanation: "Decided: every bucket the walk reports is re-created with SetSequence(seq) in both arms (top-level and nested), seq being the Sequence() of the very bucket reported; after an intermediate commit the writes go to the NEW transaction (one captured transaction cell, re-assigned from dst.Begin(true), used by every later call, the deferred rollback and the final commit); " +
 			"the source is only ever read (flows only into walk -> View; the CLI opens it ReadOnly); every error inside the callback is returned and aborts Compact before the final commit. " +
-			"NOT decided: equality of destination and source content, the arithmetic of txMaxSize (dynamic / value-level).",
+			"NOT decided: equality of destination and source content, the arithmetic of txMaxSize (dynamic / value-level). Round 3: the callback decides bucket versus key/value by v == nil, never by len(v).",
 		Run: func(c *Ctx) {
 			c15R1(c, "C15.R1")
 			c15R2(c, "C15.R2")
